@@ -806,3 +806,44 @@ func ruleRootRegisteredOnce(c *Ctx) {
 		c.note("-", "no function registers the constant pattern \"/\" and reports it", "-", "nothing to decide")
 	}
 }
+
+// C06.i (round 19): the list of container filters is looked at per request, never at registration time.
+// Container.Filter may be called after Handle/HandleWithFilter/Add: a function that is not on the request path and is
+// not the one that stores the list must not read it (a shortcut "no filters yet: register the bare handler" freezes
+// the answer of the moment of registration).
+func ruleContainerFiltersReadPerRequest(c *Ctx) {
+	p := c.P
+	roles := p.Roles()
+	n := 0
+	for _, fn := range p.SrcFunc {
+		if fn.Blocks == nil || !p.inModule(fn) {
+			continue
+		}
+		acc := p.fieldAccesses(fn)
+		stores := false
+		for _, a := range acc {
+			if a.Owner == "Container" && a.Field != nil && a.Field.Name() == "containerFilters" && a.Kind == "store" {
+				stores = true
+			}
+		}
+		for _, a := range acc {
+			if a.Owner != "Container" || a.Field == nil || a.Field.Name() != "containerFilters" || a.Kind == "store" {
+				continue
+			}
+			name := p.fname(fn)
+			switch {
+			case roles.RequestPath[fn]:
+				n++
+				c.ok(name, "container filter list is read while serving a request", p.ipos(a.Instr), "function is on the request path")
+			case stores:
+				c.triv(name, "container filter list is read by the function that extends it", p.ipos(a.Instr), "read-modify-write of the list")
+			default:
+				c.bad(name, "container filter list is read while serving a request", p.ipos(a.Instr),
+					"the list is read at registration time: filters added with Container.Filter afterwards do not run for what this function registered")
+			}
+		}
+	}
+	if n == 0 {
+		c.bad("-", "container filter list is read while serving a request", "-", "no read of Container.containerFilters on the request path found (expected: dispatch, the handler HandleWithFilter registers)")
+	}
+}
